@@ -370,7 +370,7 @@ _LINALG = {'inv': _inv}
 
 # ---- shadows for builtins that force a C type
 
-def sym_float(x=0.0):
+def _sym_float(x=0.0):
     if isinstance(x, (SymX, SymInt)):
         return x if isinstance(x, SymX) else x._promote()
     if isinstance(x, SymBool):
@@ -381,11 +381,11 @@ def sym_float(x=0.0):
         if x.ndim > 0 and core.cur() is not None and getattr(core.cur(), 'strict_float', True):
             # numpy >= 2.5 refuses float() of arrays with ndim > 0
             raise TypeError('only 0-dimensional arrays can be converted to Python scalars')
-        return sym_float(x.reshape(-1)[0])
+        return _sym_float(x.reshape(-1)[0])
     return builtins.float(x)
 
 
-def sym_int(x=0, *a):
+def _sym_int(x=0, *a):
     if isinstance(x, SymInt):
         return x
     if isinstance(x, SymX):
@@ -396,6 +396,26 @@ def sym_int(x=0, *a):
     if isinstance(x, SymBool):
         return 1 if bool(x) else 0
     return builtins.int(x, *a)
+
+
+class _ShadowMeta(type):
+    """Shadows of the builtins `float` / `int`: callable like them, and usable in isinstance() like them."""
+
+    def __call__(cls, *a):
+        return cls._conv(*a)
+
+    def __instancecheck__(cls, obj):
+        return isinstance(obj, cls._types)
+
+
+class sym_float(metaclass=_ShadowMeta):
+    _types = (builtins.float, SymX)
+    _conv = staticmethod(_sym_float)
+
+
+class sym_int(metaclass=_ShadowMeta):
+    _types = (builtins.int, SymInt)
+    _conv = staticmethod(_sym_int)
 
 
 def sym_ceil(x):
